@@ -43,11 +43,21 @@
 
 static int h_posix_memalign(void **out, size_t align, size_t size);
 static void h_free(void *p);
+#ifdef SBAHEAP_LINKWRAP
+/* Second build of this harness (-O2, the optimisation level of the shipped library): allocator_sba.c calls posix_memalign
+ * and free under their real names and the calls are redirected at link time (-Wl,--wrap), so the compiler knows that it is
+ * looking at free() - and may treat stores into the block just before it as dead.  What the source says it erases before
+ * giving memory back and what the object code erases are then two things; this build observes the second. */
+int __real_posix_memalign(void **out, size_t align, size_t size);
+void __real_free(void *p);
+#include "allocator_sba.c"
+#else
 #define posix_memalign h_posix_memalign
 #define free h_free
 #include "allocator_sba.c" /* the working tree's file, found through -I<repo>/source */
 #undef posix_memalign
 #undef free
+#endif
 
 #define PAGE ((size_t)AWS_SBA_PAGE_SIZE)
 
@@ -166,6 +176,19 @@ static void h_free(void *p) {
     if (g_new_op) V_COUNT("pages_freed", 1);
     if (!oh_release(p, K_PAGE)) esx_fail("page-free-invalid", "allocator_sba.c released heap offset %ld as a page; it is not the start of a live page", (long)((uint8_t *)p - oh));
 }
+#ifdef SBAHEAP_LINKWRAP
+int __wrap_posix_memalign(void **out, size_t align, size_t size) {
+    if (oh && align == PAGE && size == PAGE) return h_posix_memalign(out, align, size);
+    return __real_posix_memalign(out, align, size);
+}
+void __wrap_free(void *p) {
+    if (oh && (uint8_t *)p >= oh && (uint8_t *)p < oh + OH_SIZE) {
+        h_free(p);
+        return;
+    }
+    __real_free(p);
+}
+#endif
 static void *par_acquire(struct aws_allocator *a, size_t size) {
     (void)a;
     ++oh_parent_acquires;
@@ -431,7 +454,12 @@ static size_t m_canon(uint8_t *buf, size_t cap) {
 
 int main(int argc, char **argv) {
     v_init(argc, argv);
-    static struct esx_model model = {.name = "sbaheap-2048", .nops = NOPS, .reset = m_reset, .enabled = m_enabled, .apply = m_apply, .canon = m_canon, .opname = opname, .teardown = m_teardown};
+#ifdef SBAHEAP_LINKWRAP
+#    define MODEL_NAME "sbaheap-2048-O2"
+#else
+#    define MODEL_NAME "sbaheap-2048"
+#endif
+    static struct esx_model model = {.name = MODEL_NAME, .nops = NOPS, .reset = m_reset, .enabled = m_enabled, .apply = m_apply, .canon = m_canon, .opname = opname, .teardown = m_teardown};
     int rc = 0;
     if (v_replay_token) {
         if (esx_token_is_for(v_replay_token, model.name)) rc |= esx_replay(&model, v_replay_token);
